@@ -1067,14 +1067,15 @@ def fresh_result(self, callee, qual, cst, st):
     if t is None:
         return NONE
     tag = V.fresh_name("ret_" + qual.rpartition(".")[2])
-    if isinstance(t, ObjT):
-        return alloc_obj(self, st, t, tag)
-    v = t.fresh(tag)
+    v = self.make_param(tag, t, st)
     st.assume(*self.type_facts(v))
     return v
 
 
 Engine.fresh_result = fresh_result
+
+
+GHOST_ENUM = {"cnt", "useq", "uidx", "nkeys", "kseq", "kidx", "n", "seq", "idx"}
 
 
 def frame_obligations(self, st, line):
@@ -1091,6 +1092,8 @@ def frame_obligations(self, st, line):
         for f, ov in old.items():
             if f == "$cls" or (oid, "*") in allowed or (oid, f) in allowed:
                 continue
+            if old["$cls"] in ("MapOfSets", "SetUnit", "SetStr") and f in GHOST_ENUM:
+                continue      # the enumeration is determined by the membership (sorted order): only membership is framed
             nv = new.get(f)
             if nv is ov:
                 continue
